@@ -13,7 +13,11 @@
 (*       case from the product of field classes (type x nonce x gas x      *)
 (*       amount x price x tip/cap relation x data x access list x to x     *)
 (*       signature form x chain id x base fee), restricted to the          *)
-(*       combinations that exist (Feasible...).  TLC enumerates the        *)
+(*       combinations that exist (Feasible...), and crossed with the       *)
+(*       ENVELOPE around the signed transaction (how the recorded hash is  *)
+(*       spelled x what the From field says: the point the wrapping API    *)
+(*       produces, or any other for an envelope built by hand and met on   *)
+(*       the receiving side).  TLC enumerates the                          *)
 (*       product and prints every case as JSON; the harness executes one   *)
 (*       real transaction per case.                                        *)
 (*  (ii) the DERIVED FIGURES and identities of the property statement      *)
@@ -36,7 +40,7 @@
 (* Numbers are decimal strings (module BigNum).  A case is a record of     *)
 (* class names                                                             *)
 (*   [type, nonce, gas, amount, price, rel, data, access, to, sig, chain,  *)
-(*    base]                                                                *)
+(*    base, rec, from]                                                     *)
 (* and a valuation is a record of concrete numbers for the numeric fields. *)
 (***************************************************************************)
 EXTENDS Integers, Sequences, FiniteSets, TLC, Json, BigNum
